@@ -18,7 +18,8 @@ func init() {
 		decided: "the ordering skeleton of the schedule: rules are partitioned by kind into five lists in source order; BEGIN rules run before the file loop, END rules after it; per file, per decoded value ($file published first), per selected root in selector order: BEGINFILE rules, then the pattern rules, then ENDFILE rules; $ is bound (ruleRoot stored) before each rule evaluation with the documented cell; for an array root the pattern rules run once per element in index order with $ = the element and $index = its position, otherwise exactly once with $ = the root; within one element the rules run in list order, a body runs iff its pattern is absent or truthy, next ends the rule list for the element and exit returns success from every driver without evaluating anything further." +
 			" Each BEGIN / END rule gets a fresh $ cell created inside the rule loop; EvalProgram reports success only on an `exit` edge or after the END loop (no early success return that skips input or rules); the -r selectors are accumulated complete and in order." +
 			" No frame is leaked when `next` leaves a function body, so rules keep running for every element." +
-			" A matched rule's body cannot be skipped (the next rule is reached only through the body evaluation or a falsy pattern); the command line passes every named file, and standard input only when no file was named.",
+			" A matched rule's body cannot be skipped (the next rule is reached only through the body evaluation or a falsy pattern); the command line passes every named file, and standard input only when no file was named." +
+			" A rule without a body gets the bare print whatever its kind.",
 		notDecided: "multiplicities for concrete inputs (they follow from Go's range semantics and encoding/json, trusted) and the interaction with user programs.",
 	})
 }
